@@ -37,10 +37,11 @@ MIRROR = {"eq": "eq", "ne": "ne", "lt": "gt", "gt": "lt", "le": "ge", "ge": "le"
 # builder
 # ------------------------------------------------------------------------------------------------
 class Builder:
-    def __init__(self, world, inst, share_terms=False):
+    def __init__(self, world, inst, share_terms=False, share_conds=False):
         self.world = world
         self.inst = inst
         self.share_terms = share_terms      # e = x.p written once and used in several places of the condition
+        self.share_conds = share_conds      # c = (x.p > 1) written once and used in several places of the condition
         self.env = {}
         self.froms = {}
         self.memo = {}
@@ -138,6 +139,16 @@ class Builder:
 
     def cond(self, c):
         k = c[0]
+        if self.share_conds and k in ("cmp", "in", "has"):
+            if ("cond", c) not in self.memo:
+                self.memo[("cond", c)] = self._leaf(c)
+            return self.memo[("cond", c)]
+        if k == "const":        # ("const", "True"/"False"): a plain Python bool given as a condition
+            return c[1] == "True"
+        return self._leaf(c)
+
+    def _leaf(self, c):
+        k = c[0]
         if k == "cmp":
             a, b = self.term(c[2]), self.term(c[3])
             return OPS[c[1]](a, b)
@@ -194,9 +205,9 @@ class Builder:
         return {"an": an, "the": the, "infer": infer}[quant](d)
 
 
-def build(q, world, inst, mode="query", predeclare=(), share_terms=False):
+def build(q, world, inst, mode="query", predeclare=(), share_terms=False, share_conds=False):
     """Returns (query object, builder). Runs inside symbolic_mode() / rule_mode(), as a user would write it."""
-    b = Builder(world, inst, share_terms=share_terms)
+    b = Builder(world, inst, share_terms=share_terms, share_conds=share_conds)
     with (rule_mode() if mode == "rule" else symbolic_mode()):
         b.declare(predeclare)
         obj = b.query(q)
@@ -270,6 +281,8 @@ class Ref:
         if k == "pc":
             args = [self.value(a, env) if isinstance(a, tuple) else W.CLASSES.get(a, a) for a in c[2]]
             return bool(REF_PRED[c[1]](*args))
+        if k == "const":
+            return c[1] == "True"
         if k in ("and", "andf"):
             return all(self.holds(x, env) for x in c[1:])
         if k in ("or", "orf"):
@@ -417,6 +430,8 @@ def up_cond(c, inst):
         return f"contains({up_term(c[1], inst)}, {up_term(c[2], inst)})"
     if k == "t":
         return up_term(c[1], inst)
+    if k == "const":
+        return c[1]
     if k in ("pf", "pc"):
         return f"{c[1]}({', '.join(up_term(a, inst) if isinstance(a, tuple) else str(a) for a in c[2])})"
     if k == "and":
